@@ -521,6 +521,17 @@ fn region(msg_type: u8, off: usize) -> String {
 
 fn raw(c: &mut Case) {
     let (input, style, mutation) = gen_raw(c);
+    raw_check(c, input, style, mutation);
+}
+
+/// byte-driven entry (libFuzzer tier / `verif-driver bytes C41 <file>`)
+pub fn fuzz_bytes(c: &mut Case, data: &[u8]) {
+    if data.len() <= 4096 {
+        raw_check(c, data.to_vec(), "fuzz", "none");
+    }
+}
+
+fn raw_check(c: &mut Case, input: Vec<u8>, style: &'static str, mutation: &'static str) {
     let detail = || json!({"input": hex(&input), "generator": style, "mutation": mutation});
     let Some(r) = c.no_panic("parse", detail, || Message::deserialize(&input)) else {
         c.sig_of(&("B", style, mutation, "panic"));
